@@ -1,1 +1,218 @@
-// harnesses for token (none yet)
+// C06 — announce tokens: bound to the requester IP, valid >= 10 min, dead by 30 min (store level).
+use super::*;
+use crate::verif::{clock, oracle_reset, secrets_reset};
+use std::net::{IpAddr, Ipv4Addr, Ipv6Addr};
+use std::time::Duration;
+
+fn ip_from(v6: bool, bytes: [u8; 16]) -> IpAddr {
+    if v6 {
+        IpAddr::V6(Ipv6Addr::from(bytes))
+    } else {
+        IpAddr::V4(Ipv4Addr::new(bytes[0], bytes[1], bytes[2], bytes[3]))
+    }
+}
+
+fn same_ip(v6: bool, a: &[u8; 16], b: &[u8; 16]) -> bool {
+    let n = if v6 { 16 } else { 4 };
+    let mut k = 0;
+    let mut same = true;
+    while k < n {
+        if a[k] != b[k] {
+            same = false;
+        }
+        k += 1;
+    }
+    same
+}
+
+/// `extra` other events between issue and check; `who`: what the final check-in presents.
+fn lifetime(extra: usize, v6: bool, who: u8) {
+    // ---- symbolic inputs (all drawn first) ----------------------------------------------------
+    let ip_bytes: [u8; 16] = kani::any();
+    let other_bytes: [u8; 16] = kani::any();
+    let idle_before_s: u64 = kani::any(); // store age when the token is issued
+    let gap_s: [u64; 3] = kani::any(); // waits before extra event 0, extra event 1, final check
+    let gap_ns: [u32; 3] = kani::any();
+    let ev_kind: [u8; 2] = kani::any(); // 0 nothing, 1 checkout(other ip), 2 checkin(other ip, issued token), 3 checkout(same ip)
+    // who: 0 same ip + issued token, 1 other ip + issued token, 2 same ip + never-issued bytes, 3 same ip + token of another store
+    let junk: [u8; 20] = kani::any();
+    kani::assume(idle_before_s <= 3 * 3600);
+    let mut i = 0;
+    while i < 3 {
+        kani::assume(gap_s[i] <= 3600 && gap_ns[i] < 1_000_000_000);
+        i += 1;
+    }
+    kani::assume(ev_kind[0] <= 3 && ev_kind[1] <= 3);
+    kani::assume(!same_ip(v6, &ip_bytes, &other_bytes));
+    let ip = ip_from(v6, ip_bytes);
+    let other = ip_from(v6, other_bytes);
+
+    oracle_reset();
+    secrets_reset();
+    clock::start_symbolic();
+    let mut store = TokenStore::new();
+    let mut store2 = TokenStore::new(); // an independent store (e.g. a previous run of the node)
+    clock::wait(Duration::from_secs(idle_before_s));
+
+    let issued_at = clock::now();
+    let token = store.checkout(ip);
+    let foreign = store2.checkout(ip);
+
+    let mut e = 0;
+    while e < extra {
+        clock::wait(Duration::new(gap_s[e], gap_ns[e]));
+        match ev_kind[e] {
+            1 => {
+                let _ = store.checkout(other);
+            }
+            2 => {
+                let ok = store.checkin(other, token);
+                assert!(!ok, "C06: a token was accepted from a different IP");
+            }
+            3 => {
+                let _ = store.checkout(ip);
+            }
+            _ => {}
+        }
+        e += 1;
+    }
+    clock::wait(Duration::new(gap_s[2], gap_ns[2]));
+    let age = clock::now().saturating_sub(issued_at);
+
+    match who {
+        0 => {
+            let ok = store.checkin(ip, token);
+            if age < Duration::from_secs(600) {
+                assert!(ok, "C06: a token was refused less than 10 minutes after it was issued");
+            }
+            if age >= Duration::from_secs(1800) {
+                assert!(!ok, "C06: a token was accepted 30 minutes or more after it was issued");
+            }
+            kani::cover!(ok && age >= Duration::from_secs(1200), "accepted in the second window");
+            kani::cover!(!ok && age < Duration::from_secs(1800), "refused before 30 minutes");
+        }
+        1 => {
+            let ok = store.checkin(other, token);
+            assert!(!ok, "C06: a token was accepted from a different IP");
+        }
+        2 => {
+            // never issued: differs from what the store would hand this IP under either secret
+            let t = Token::from(junk);
+            let a = generate_token_from_addr(ip, store.curr_secret);
+            let b = generate_token_from_addr(ip, store.last_secret);
+            kani::assume(t != token);
+            let ok = store.checkin(ip, t);
+            // after the check the secrets may have rotated: compare with the post-state ones as well
+            let c = generate_token_from_addr(ip, store.curr_secret);
+            let d = generate_token_from_addr(ip, store.last_secret);
+            if t != a && t != b && t != c && t != d {
+                assert!(!ok, "C06: a token the node never issued was accepted");
+            }
+        }
+        _ => {
+            let ok = store.checkin(ip, foreign);
+            assert!(!ok, "C06: a token issued by a different store (other secrets) was accepted");
+        }
+    }
+    kani::cover!(true, "end reached");
+}
+
+#[kani::proof]
+#[kani::unwind(21)]
+#[kani::stub(rand::random, crate::verif::stub_random_distinct)]
+#[kani::stub(crate::info_hash::InfoHash::sha1, crate::verif::stub_sha1)]
+fn c06_lifetime_k1_v4() {
+    lifetime(1, false, 0);
+}
+
+#[kani::proof]
+#[kani::unwind(21)]
+#[kani::stub(rand::random, crate::verif::stub_random_distinct)]
+#[kani::stub(crate::info_hash::InfoHash::sha1, crate::verif::stub_sha1)]
+fn c06_lifetime_k1_v6() {
+    lifetime(1, true, 0);
+}
+
+#[kani::proof]
+#[kani::unwind(21)]
+#[kani::stub(rand::random, crate::verif::stub_random_distinct)]
+#[kani::stub(crate::info_hash::InfoHash::sha1, crate::verif::stub_sha1)]
+fn c06_other_ip_k0_v4() {
+    lifetime(0, false, 1);
+}
+
+#[kani::proof]
+#[kani::unwind(21)]
+#[kani::stub(rand::random, crate::verif::stub_random_distinct)]
+#[kani::stub(crate::info_hash::InfoHash::sha1, crate::verif::stub_sha1)]
+fn c06_never_issued_k0_v4() {
+    lifetime(0, false, 2);
+}
+
+#[kani::proof]
+#[kani::unwind(21)]
+#[kani::stub(rand::random, crate::verif::stub_random_distinct)]
+#[kani::stub(crate::info_hash::InfoHash::sha1, crate::verif::stub_sha1)]
+fn c06_foreign_store_k0_v4() {
+    lifetime(0, false, 3);
+}
+
+#[kani::proof]
+#[kani::unwind(21)]
+#[kani::stub(rand::random, crate::verif::stub_random_distinct)]
+#[kani::stub(crate::info_hash::InfoHash::sha1, crate::verif::stub_sha1)]
+fn c06_lifetime_k2_v4() {
+    lifetime(2, false, 0);
+}
+
+#[kani::proof]
+#[kani::unwind(21)]
+#[kani::stub(rand::random, crate::verif::stub_random_distinct)]
+#[kani::stub(crate::info_hash::InfoHash::sha1, crate::verif::stub_sha1)]
+fn c06_lifetime_k2_v6() {
+    lifetime(2, true, 0);
+}
+
+#[kani::proof]
+#[kani::unwind(21)]
+#[kani::stub(rand::random, crate::verif::stub_random_distinct)]
+#[kani::stub(crate::info_hash::InfoHash::sha1, crate::verif::stub_sha1)]
+fn c06_other_ip_k1_v6() {
+    lifetime(1, true, 1);
+}
+
+#[kani::proof]
+#[kani::unwind(21)]
+#[kani::stub(rand::random, crate::verif::stub_random_distinct)]
+#[kani::stub(crate::info_hash::InfoHash::sha1, crate::verif::stub_sha1)]
+fn c06_never_issued_k1_v6() {
+    lifetime(1, true, 2);
+}
+
+#[kani::proof]
+#[kani::unwind(21)]
+#[kani::stub(rand::random, crate::verif::stub_random_distinct)]
+#[kani::stub(crate::info_hash::InfoHash::sha1, crate::verif::stub_sha1)]
+fn c06_foreign_store_k1_v6() {
+    lifetime(1, true, 3);
+}
+
+/// Token::new accepts exactly 20 bytes (each length its own concrete instance, content symbolic).
+#[kani::proof]
+#[kani::unwind(42)]
+fn c06_token_length_gate() {
+    let bytes: [u8; 40] = kani::any();
+    assert!(Token::new(&bytes[..0]).is_err(), "C06: empty token accepted");
+    assert!(Token::new(&bytes[..19]).is_err(), "C06: 19-byte token accepted");
+    assert!(Token::new(&bytes[..21]).is_err(), "C06: 21-byte token accepted");
+    assert!(Token::new(&bytes[..40]).is_err(), "C06: 40-byte token accepted");
+    let t = Token::new(&bytes[..20]);
+    assert!(t.is_ok(), "C06: 20-byte token refused");
+    let back: [u8; 20] = t.unwrap().into();
+    let mut k = 0;
+    while k < 20 {
+        assert!(back[k] == bytes[k], "C06: token bytes altered");
+        k += 1;
+    }
+    kani::cover!(true, "end of harness reached");
+}
